@@ -340,7 +340,10 @@ func (p c17) Run(seed uint64, run int, tier string, acc *Acc) *Violation {
 				f, _, bad := checkC17(sc, acc)
 				acc.Probe("chained-cells", 1)
 				if !bad && f != nil {
-					sig := "chained " + cell.class() + " clause=" + f.what
+					sig := cell.class() + " clause=" + f.what
+					if len(sc.Prior) > 0 {
+						sig = "chained " + sig
+					}
 					if !seen[sig] {
 						seen[sig] = true
 						// keep only the last predecessor if that is enough
